@@ -234,4 +234,5 @@ def compare(c, impl, model):
 
 def extra_checks(ctx, cases, impl_lines, model_lines):
     from gen import xcheck
-    return xcheck.concurrent_reconfig(ctx, "routing under concurrent reconfiguration", levels=True, plain=False)
+    return (xcheck.concurrent_reconfig(ctx, "routing under concurrent reconfiguration", levels=True, plain=False)
+            + xcheck.global_facade(ctx, "routing through the installed global logger and the log! macros"))
